@@ -25,6 +25,14 @@ class C01(Oracle):
                 viols.append(Violation("C01", "C01/operand-changed",
                                        "step %s changed the caller's own input object %s" % (rec["op"], k),
                                        {"op": rec["op"], "victim": "input"}))
+        sealed = ctx.extra.get("sealed") if ctx is not None else None
+        if sealed is not None:
+            env.probe("c01_sealed_row_opened")
+            if not sealed["ok"]:
+                viols.append(Violation("C01", "C01/held-row-changed",
+                                       "a row taken from a table and first looked at later (%s) shows %r; the table held %r in that "
+                                       "row when it was taken" % (sealed["how"], sealed["got"], sealed["expected"]),
+                                       {"op": "rowopen", "how": sealed["how"]}))
         changed = [eid for eid, s in env.prev.items() if eid in env.cur and env.cur[eid] != s]
         if not changed:
             return viols
